@@ -47,6 +47,10 @@ def run(F, rep, tier):
     # shared between activations while a callback runs
     import c18
     c18.global_leak(rep, c18.Lua(F.read("sylt-compiler/src/preamble.lua")))
+    # closures share a captured *global* because it is one Lua local of the chunk: every function that mentions the global -
+    # also one that only stores to it - has to be emitted after that `local`, i.e. every mention is a dependency edge
+    import c11
+    c11.dependency_visit(F, rep)
 
 
 def defines_of(T, ops):
